@@ -26,7 +26,7 @@ func init() {
 		Phases: func(tier string, seed int64) []Phase {
 			return []Phase{{Name: "request-direction", Run: c14Request}, {Name: "response-direction", Run: c14Response}, {Name: "constructors", Run: c14Constructors}, {Name: "instance-reuse", Run: c14Reuse}}
 		},
-		MinObserved: []string{"controls_checked", "request_direction_controls", "response_direction_controls", "goldap_decodes_compared", "reused_instance_encodings"},
+		MinObserved: []string{"controls_checked", "request_direction_controls", "response_direction_controls", "goldap_decodes_compared", "reused_instance_encodings", "responses_with_a_non_success_result_code"},
 	})
 }
 
@@ -249,19 +249,22 @@ func c14Response(c *Ctx) {
 	r := c.Rng
 	var mu sync.Mutex
 	var cur []CtlSpec
+	curCode := 0
 	setter := func(w *gldap.ResponseWriter, req *gldap.Request) {
 		mu.Lock()
-		specs := cur
+		specs, code := cur, curCode
 		mu.Unlock()
 		gc, _ := toGldapAll(specs)
+		// the carrier's result code is none of the controls' business (set before or after them, by option or setter)
 		if _, err := req.GetSimpleBindMessage(); err == nil {
-			resp := req.NewBindResponse(gldap.WithResponseCode(0))
+			resp := req.NewBindResponse(gldap.WithResponseCode(code))
 			resp.SetControls(gc...)
 			w.Write(resp)
 			return
 		}
-		resp := req.NewSearchDoneResponse(gldap.WithResponseCode(0))
+		resp := req.NewSearchDoneResponse()
 		resp.SetControls(gc...)
+		resp.SetResultCode(code)
 		w.Write(resp)
 	}
 	srv, err := startSrv(SrvCfg{}, func(m *gldap.Mux) { m.Bind(setter); m.Search(setter) })
@@ -299,8 +302,13 @@ func c14Response(c *Ctx) {
 			c.Violate("constructor rejects a valid control value", err.Error(), map[string]any{"controls": specs})
 			continue
 		}
+		code := 0
+		if i%3 == 2 {
+			code = pick(r, []int{1, 3, 4, 11, 12, 32, 49, 50, 53, 80})
+			c.Count("responses_with_a_non_success_result_code", 1)
+		}
 		mu.Lock()
-		cur = specs
+		cur, curCode = specs, code
 		mu.Unlock()
 		isSearch := r.Bool()
 		// strict parser as the first observer (raw connection)
@@ -331,7 +339,7 @@ func c14Response(c *Ctx) {
 				usable = false
 			}
 		}
-		if !usable {
+		if !usable || code != 0 { // (go-ldap returns the error before it looks at the controls)
 			continue
 		}
 		var got []ldap.Control
